@@ -112,6 +112,13 @@ def natural_matrix(ctx):
                         out=("path" if n % 2 else "temp"), foreign=(["o0"] if n % 2 else []),
                         skip=(3 if n == 3 else 0),
                         fault=dict(kind=kind, where=where, stage=("thermal" if n == 3 else "sim"), i=i, at="pre")))
+    # the stop arrives at the END of the real update (after all its work, before the runner takes the new values): the
+    # discarded step must leave no trace in the final frame of the cancelled run — not in the records and not in any
+    # of the saved arrays (a scratch buffer of the solver aliased by the runner's values would show here)
+    for n, (i, kind, scr, k) in enumerate([(3, "KI", False, 2), (5, "KI", True, 2), (1, "KI", False, 3), (4, "KI", True, 3), (3, "Err", False, 2)]):
+        out.append(dict(dev="bar", k=k, steps=8, adaptive=False, dt=2.0 ** -6, probes=2, current=2.0, field=0.3, screening=scr,
+                        out=("path" if n % 2 else "temp"), foreign=[],
+                        fault=dict(kind=kind, where="update", stage="sim", i=i, at="post")))
     return out
 
 
